@@ -178,6 +178,14 @@ def run(ctx, col: Collector):
                 n += 1
                 col.obs.append(type(o)(col.prop, 'C15-form', 'value-literal:' + o.construct, o.status, o.msg, o.file, o.line, o.extra))
         col.floor('C15-form', 'property value sinks', n, 4)
+        # property keys are names: written bare only when the reader takes them bare (rule shared with C02-ident)
+        sub2 = ctx.sub('c02', col.prop)
+        m = 0
+        for o in sub2.obs:
+            if o.rule == 'C02-ident' and (o.construct.endswith(':bare-pattern') or o.construct.startswith('property key')):
+                m += 1
+                col.obs.append(type(o)(col.prop, 'C15-form', 'key:' + o.construct, o.status, o.msg, o.file, o.line, o.extra))
+        col.floor('C15-form', 'property key obligations', m, 2)
     guarded(col, 'C15-form', 'property-value-literal', value_roundtrip)
 
     # ---------------------------------------------------------------- C15-newline
